@@ -367,3 +367,199 @@ Proof.
   { intros atoff reserved last. unfold relocate. cbn [relocate_all]. rewrite He. reflexivity. }
   destruct tab as [t0|]; [destruct (by_id h t0) as [ts|]|]; rewrite Hrel; reflexivity.
 Qed.
+
+(* the same with the alignment (unchanged) recorded, for code_size *)
+Lemma relocate_holder_sizes_al h tab calls base h2 red :
+  NoDup (map sid h) -> (forall s, In s h -> 0 <= sid s) ->
+  (forall s, In s h -> Some (sid s) = tab -> sbsize s <= svsize s) ->
+  relocate_holder h tab calls base = inl (h2, red) ->
+  0 <= red /\
+  Forall2 (fun s s2 => soff s2 = soff s /\ salign s2 = salign s /\
+             (real_size s2 = real_size s \/ (red <> 0 /\ (exists l1, h = l1 ++ [s]) /\ real_size s2 = real_size s - red))) h h2.
+Proof.
+  intros Hnd Hpos Hbuf E. unfold relocate_holder in E.
+  destruct (by_id h 0) as [text|] eqn:Et; [|discriminate].
+  destruct (forallb (site_in_bounds text) calls) eqn:Eb; cbn [negb] in E; [|discriminate].
+  set (es := map (site_entry h (soff text)) calls) in *.
+  assert (Hsel : exists t atoff reserved last,
+            (match tab with
+             | Some t0 => match by_id h t0 with Some ts => (t0, soff ts, svsize ts, is_last h t0) | None => (-1, 0, 0, false) end
+             | None => (-1, 0, 0, false) end) = (t, atoff, reserved, last) /\
+            ((t = -1 /\ last = false) \/ (tab = Some t /\ exists ts, by_id h t = Some ts /\ reserved = svsize ts /\ last = is_last h t))).
+  { destruct tab as [t0|]; [destruct (by_id h t0) as [ts|] eqn:Ets|]; do 4 eexists; (split; [reflexivity|]); eauto 10. }
+  destruct Hsel as [t [atoff [reserved [last [Esel Hres]]]]]. rewrite Esel in E.
+  destruct (relocate base REG_SIZE atoff reserved last es) as [r|x] eqn:Er; [|discriminate].
+  destruct (Z.ltb_spec reserved (rr_table_size r)) as [|Hfit]; [discriminate|]. inversion E; subst h2 red; clear E.
+  destruct (relocate_table _ _ _ _ _ _ _ Er) as [_ [Esize [Ered _]]]. unfold Labels.LabelsModel.zlen, REG_SIZE in Esize.
+  assert (Hsize0 : 0 <= rr_table_size r) by lia.
+  split; [rewrite Ered; destruct last; lia|].
+  apply Forall2_map_in. intros s Hs. cbv beta.
+  destruct (Z.eqb_spec (sid s) t) as [Est|Nst].
+  - destruct Hres as [[Tm _]|[Etab [ts [Bts [Rts Lts]]]]]; [specialize (Hpos s Hs); lia|].
+    assert (ts = s). { rewrite <- Est in Bts. rewrite (by_id_unique h s Hnd Hs) in Bts. congruence. } subst ts.
+    assert (Hbs : sbsize s <= svsize s) by (apply Hbuf; [assumption|rewrite Etab, Est; reflexivity]).
+    split; [reflexivity|]. split; [reflexivity|]. rewrite Ered. unfold real_size, set_sizes. cbn [svsize sbsize]. destruct last eqn:El.
+    + destruct (Z.eq_dec (reserved - rr_table_size r) 0) as [Z0|Zn]; [left; lia|right].
+      split; [assumption|]. split; [|lia].
+      symmetry in Lts. destruct (is_last_spec h t Lts) as [l1 [s' [Eh Es']]]. exists l1.
+      assert (Hin' : In s' h) by (rewrite Eh; apply in_or_app; right; left; reflexivity).
+      assert (s' = s).
+      { pose proof (by_id_unique h s' Hnd Hin') as B1. pose proof (by_id_unique h s Hnd Hs) as B2. rewrite Es', <- Est in B1. congruence. }
+      subst s'. assumption.
+    + left. lia.
+  - destruct (Z.eqb_spec (sid s) 0); (split; [reflexivity|split; [reflexivity|left; reflexivity]]).
+Qed.
+
+(* ------------------------------------------------------------------ code_size of the relocated holder *)
+Lemma map_sizes_same (G : section -> section) l :
+  (forall x, In x l -> real_size (G x) = real_size x /\ salign (G x) = salign x) ->
+  Forall2 (fun a b => real_size b = real_size a /\ salign b = salign a) l (map G l).
+Proof. intros H. apply Forall2_map_in. assumption. Qed.
+
+(* JitRuntime::_add's ASSERT `estimated_code_size - code_size_reduction == code->code_size()` for the REAL relocated holder (all
+   four site kinds, table last / not last / absent): the address table has no buffer before relocation (only a reservation) *)
+Theorem relocated_code_size h0 h tab calls base h2 red :
+  wf_holder h0 -> flatten h0 = (EOk, h) -> NoDup (map sid h) -> (forall s, In s h -> 0 <= sid s) ->
+  (forall s, In s h -> Some (sid s) = tab -> sbsize s = 0) ->
+  relocate_holder h tab calls base = inl (h2, red) ->
+  0 <= red /\ code_size h2 = code_size h - red /\ code_size h2 <= code_size h.
+Proof.
+  intros Hwf Ef Hnd Hpos Hbuf E.
+  destruct (flatten_final h0 h Hwf Ef) as [Hwf' Hlne _ Htight _ _ _ _ _].
+  unfold relocate_holder in E.
+  destruct (by_id h 0) as [text|] eqn:Et; [|discriminate].
+  destruct (forallb (site_in_bounds text) calls) eqn:Eb; cbn [negb] in E; [|discriminate].
+  set (es := map (site_entry h (soff text)) calls) in *.
+  assert (Hsel : exists t atoff reserved last,
+            (match tab with
+             | Some t0 => match by_id h t0 with Some ts => (t0, soff ts, svsize ts, is_last h t0) | None => (-1, 0, 0, false) end
+             | None => (-1, 0, 0, false) end) = (t, atoff, reserved, last) /\
+            ((t = -1 /\ last = false) \/ (tab = Some t /\ exists ts, by_id h t = Some ts /\ reserved = svsize ts /\ last = is_last h t))).
+  { destruct tab as [t0|]; [destruct (by_id h t0) as [ts|] eqn:Ets|]; do 4 eexists; (split; [reflexivity|]); eauto 10. }
+  destruct Hsel as [t [atoff [reserved [last [Esel Hres]]]]]. rewrite Esel in E.
+  destruct (relocate base REG_SIZE atoff reserved last es) as [r|x] eqn:Er; [|discriminate].
+  destruct (Z.ltb_spec reserved (rr_table_size r)) as [|Hfit]; [discriminate|]. inversion E; subst h2 red; clear E.
+  destruct (relocate_table _ _ _ _ _ _ _ Er) as [_ [Esize [Ered _]]]. unfold Labels.LabelsModel.zlen, REG_SIZE in Esize.
+  assert (Hsize0 : 0 <= rr_table_size r) by lia.
+  set (G := fun s : section => if sid s =? t then set_sizes s (rr_table_size r) (if last then rr_table_size r else svsize s) (table_bytes (rr_table r))
+                               else if sid s =? 0 then set_data s (patch_all (sdata s) es (rr_outs r)) else s).
+  (* a section that is not the table keeps size and alignment *)
+  assert (Hother : forall x, In x h -> sid x <> t -> real_size (G x) = real_size x /\ salign (G x) = salign x).
+  { intros x Hx Hn. unfold G. destruct (Z.eqb_spec (sid x) t); [contradiction|]. destruct (sid x =? 0); split; reflexivity. }
+  (* the table, when it keeps its reservation *)
+  assert (Htab_keep : last = false -> forall x, In x h -> sid x = t -> real_size (G x) = real_size x /\ salign (G x) = salign x).
+  { intros Hl x Hx Ex. unfold G. rewrite Ex, Z.eqb_refl, Hl.
+    destruct Hres as [[Tm _]|[Etab [ts [Bts [Rts _]]]]]; [specialize (Hpos x Hx); lia|].
+    assert (ts = x). { rewrite <- Ex in Bts. rewrite (by_id_unique h x Hnd Hx) in Bts. congruence. } subst ts.
+    assert (sbsize x = 0) by (apply Hbuf; [assumption|rewrite Etab, Ex; reflexivity]).
+    rewrite Forall_forall in Hwf'. destruct (Hwf' x Hx) as [Hv _].
+    split; [unfold real_size, set_sizes; cbn [svsize sbsize]; lia|reflexivity]. }
+  fold G. destruct last eqn:El.
+  - (* the table is the last section: it gives the unused reservation back *)
+    rewrite Ered. destruct Hres as [[_ Hf]|[Etab [ts [Bts [Rts Lts]]]]]; [discriminate|].
+    symmetry in Lts. destruct (is_last_spec h t Lts) as [l1 [s' [Eh Es']]].
+    assert (Hin' : In s' h) by (rewrite Eh; apply in_or_app; right; left; reflexivity).
+    assert (ts = s').
+    { pose proof (by_id_unique h s' Hnd Hin') as B1. rewrite Es' in B1. congruence. } subst s'.
+    assert (Hb0 : sbsize ts = 0) by (apply Hbuf; [assumption|rewrite Etab, Es'; reflexivity]).
+    assert (Hids : forall x, In x l1 -> sid x <> sid ts).
+    { intros x Hx Ex. rewrite Eh in Hnd. rewrite map_app in Hnd. cbn [map] in Hnd.
+      apply NoDup_remove_2 in Hnd. apply Hnd. rewrite app_nil_r. rewrite <- Ex. apply in_map. assumption. }
+    subst h.
+    destruct (estimate_generic l1 ts (rr_table_size r) Hwf' Hlne Htight Hids Hsize0 ltac:(lia)) as [h'' [r' [Esh [Er' [Hr0 [Hcs Hle]]]]]].
+    rewrite (shrink_last_app l1 ts (sid ts) (rr_table_size r) eq_refl Hids) in Esh. inversion Esh; subst h'' r'; clear Esh.
+    assert (Hsame : code_size (map G (l1 ++ [ts])) = code_size (l1 ++ [set_sizes ts (rr_table_size r) (rr_table_size r) (firstn (Z.to_nat (rr_table_size r)) (sdata ts))])).
+    { unfold code_size. rewrite (cs_walk_same_sizes true (l1 ++ [set_sizes ts (rr_table_size r) (rr_table_size r) (firstn (Z.to_nat (rr_table_size r)) (sdata ts))]) (map G (l1 ++ [ts]))); [reflexivity|].
+      rewrite map_app. cbn [map]. apply Forall2_app.
+      - apply map_sizes_same. intros x Hx. apply Hother; [apply in_or_app; left; assumption|]. rewrite <- Es'. apply Hids. assumption.
+      - constructor; [|constructor]. unfold G. rewrite Es', Z.eqb_refl. split; reflexivity. }
+    rewrite Hsame, Hcs, <- Rts. split; [lia|]. split; lia.
+  - (* the table is not last (or there is none): nothing moves *)
+    rewrite Ered. split; [lia|]. rewrite Z.sub_0_r.
+    assert (Hsame : code_size (map G h) = code_size h).
+    { unfold code_size. rewrite (cs_walk_same_sizes true h (map G h)); [reflexivity|]. apply map_sizes_same. intros x Hx.
+      destruct (Z.eq_dec (sid x) t) as [Ex|Nx]; [apply Htab_keep; auto|apply Hother; assumption]. }
+    rewrite Hsame. split; [reflexivity|lia].
+Qed.
+
+(* ------------------------------------------------------------------ hypotheses discharged for holders the API can produce *)
+Lemma flattened_reachable_ready h0 h : reachable h0 -> data_len_ok h0 -> flatten h0 = (EOk, h) ->
+  wf_holder h0 /\ NoDup (map sid h) /\ (forall s, In s h -> 0 <= sid s) /\ Forall data_ok h /\ disjoint_layout h.
+Proof.
+  intros R Hdl Ef. destruct (reachable_inv h0 R) as [_ [_ Hwf]]. destruct (reachable_ids_unique h (r_flatten h0 h R Ef)) as [Hnd Hpos].
+  destruct (final_copy_ready h0 h Hwf Hdl Ef) as [Hd Hdis]. auto.
+Qed.
+
+(* relocation of a flattened holder the API can produce, all in one: nothing but reachability, well-sized buffers and "the address
+   table has no buffer yet" is assumed *)
+Theorem relocated_reachable h0 h tab calls base h2 red :
+  reachable h0 -> data_len_ok h0 -> flatten h0 = (EOk, h) ->
+  (forall s, In s h -> Some (sid s) = tab -> sbsize s = 0) ->
+  relocate_holder h tab calls base = inl (h2, red) ->
+  (* layout: offsets, ids untouched; still collision-free; buffers well-sized; only .text and the table change *)
+  map soff h2 = map soff h /\ map sid h2 = map sid h /\ Forall data_ok h2 /\ disjoint_layout h2 /\
+  (forall s s2, In s h -> In s2 h2 -> sid s2 = sid s -> sid s <> 0 -> Some (sid s) <> tab -> s2 = s) /\
+  (* sizes: the reduction is what code_size loses *)
+  0 <= red /\ code_size h2 = code_size h - red /\
+  (* totality: every cell below the final size belongs to a section of the relocated holder *)
+  (forall c, 0 <= c < code_size h2 -> exists s2, In s2 h2 /\ soff s2 <= c < soff s2 + real_size s2).
+Proof.
+  intros R Hdl Ef Hbuf Er. destruct (flattened_reachable_ready h0 h R Hdl Ef) as [Hwf [Hnd [Hpos [Hd Hdis]]]].
+  destruct (relocate_holder_ok h tab calls base h2 red Hnd Hpos Hd Hdis Er) as [D2 [Dis2 [_ [Off [Ids Hsame]]]]].
+  destruct (relocated_code_size h0 h tab calls base h2 red Hwf Ef Hnd Hpos Hbuf Er) as [Hr0 [Hcs _]].
+  repeat (split; [assumption|]). rewrite Hcs.
+  apply (relocated_image_total h0 h tab calls base h2 red Hwf Ef Hnd Hpos); [|assumption].
+  intros s Hs Ht. rewrite (Hbuf s Hs Ht). rewrite Forall_forall in Hd. destruct (Hd s Hs) as [_ [_ Hv]]. lia.
+Qed.
+
+(* JitRuntime::_add with relocations on a holder the API can produce: the id premise of jit_add_reloc_image is discharged *)
+Theorem jit_add_reloc_image_reachable st calls base fill final img h2 :
+  reachable (jh st) -> data_len_ok (jh st) ->
+  jit_add_reloc st calls base fill = (JOk, final, img, h2) ->
+  exists h1 red, flatten (jh st) = (EOk, h1) /\ relocate_holder h1 (jtab st) calls base = inl (h2, red) /\
+    final = code_size h1 - red /\ map soff h2 = map soff h1 /\
+    (forall s, In s h2 -> forall k, 0 <= k < sbsize s -> soff s + k < final -> cell (flat img) (soff s + k) = cell (sdata s) k) /\
+    (forall s, In s h2 -> forall c, soff s + sbsize s <= c < wend true (code_size h1) s -> c < final -> cell (flat img) c = 0).
+Proof.
+  intros R Hdl E. destruct (reachable_inv (jh st) R) as [_ [_ Hwf]].
+  apply (jit_add_reloc_image st calls base fill final img h2 Hwf Hdl); [|assumption].
+  intros h1 Ef. apply (reachable_ids_unique h1 (r_flatten (jh st) h1 R Ef)).
+Qed.
+
+(* non-vacuity of relocated_reachable: a holder built through the API steps (new_section for the table, size updates), one far call *)
+Definition ex_rr : holder :=
+  update_id (update_id (snd (new_section init_holder addrtab_name 8 INT_MAX)) 0 (fun s => set_sizes s 6 0 CALL_BYTES))
+            1 (fun s => set_sizes s 0 8 []).
+
+Example relocated_reachable_example : exists h h2,
+  reachable ex_rr /\ data_len_ok ex_rr /\ flatten ex_rr = (EOk, h) /\
+  (forall s, In s h -> Some (sid s) = Some 1 -> sbsize s = 0) /\
+  relocate_holder h (Some 1) [SCall 0 1311768467463790320] 4194304 = inl (h2, 0) /\ code_size h2 = 16 /\
+  map sdata h2 = [[255; 21; 2; 0; 0; 0]; [240; 222; 188; 154; 120; 86; 52; 18]].
+Proof.
+  eexists. eexists. split; [|split; [|split; [vm_compute; reflexivity|]]].
+  - unfold ex_rr. apply r_update; [apply r_update|].
+    + apply (r_new init_holder addrtab_name 8 INT_MAX); [apply r_init|lia|unfold INT_MIN, INT_MAX; lia|vm_compute; reflexivity].
+    + intros s. cbn. pose proof W64_pos. repeat split; try lia; try (vm_compute; reflexivity).
+    + intros s. cbn. pose proof W64_pos. repeat split; try lia; try (vm_compute; reflexivity).
+  - unfold data_len_ok. vm_compute. repeat constructor.
+  - split; [|split; [vm_compute; reflexivity|split; vm_compute; reflexivity]].
+    intros s Hin Hs. cbn in Hin. destruct Hin as [<-|[<-|[]]]; [vm_compute in Hs; discriminate|reflexivity].
+Qed.
+
+(* relocated_copy_exact with its side conditions discharged from reachability *)
+Theorem relocated_copy_exact_reachable h0 h tab calls base h2 red mem dst ps pt mem' :
+  reachable h0 -> data_len_ok h0 -> flatten h0 = (EOk, h) ->
+  relocate_holder h tab calls base = inl (h2, red) -> 0 <= dst <= Z.of_nat (length mem) ->
+  copy_flat h2 mem dst ps pt = (EOk, mem') ->
+  map soff h2 = map soff h /\ length mem' = length mem /\
+  (forall c, dst <= c -> cell mem' c = cell mem c) /\
+  (forall s, In s h2 -> forall k, 0 <= k < sbsize s -> cell mem' (soff s + k) = cell (sdata s) k) /\
+  (forall s, In s h2 -> forall c, soff s + sbsize s <= c < wend ps dst s -> cell mem' c = 0) /\
+  (pt = true -> forall c, ends ps dst h2 0 <= c < dst -> cell mem' c = 0) /\
+  (forall c, 0 <= c -> (forall s, In s h2 -> ~ (soff s <= c < wend ps dst s)) -> (pt = false \/ c < ends ps dst h2 0) ->
+             cell mem' c = cell mem c).
+Proof.
+  intros R Hdl Ef. destruct (flattened_reachable_ready h0 h R Hdl Ef) as [_ [Hnd [Hpos [Hd Hdis]]]].
+  apply relocated_copy_exact; assumption.
+Qed.
